@@ -534,7 +534,7 @@ var Profiles = map[string]*Profile{
 	"end": {Name: "end", MaxNodes: 2, Weights: map[string]int{"line": 6, "opts": 4, "if": 3, "set": 3, "declare": 1, "jump": 1, "cmd": 2, "call": 2, "stop": 3},
 		ExprDepth: 1, Faults: 0, Ops: 24, HostWrites: 1},
 	// assignments of every operator over every pair of types, interleaved with host writes
-	"vars": {Name: "vars", MaxNodes: 2, Weights: map[string]int{"line": 4, "opts": 1, "if": 1, "set": 12, "declare": 3, "jump": 1, "cmd": 0, "call": 1, "stop": 0},
+	"vars": {Name: "vars", MaxNodes: 2, Weights: map[string]int{"line": 4, "opts": 1, "if": 1, "set": 12, "declare": 3, "jump": 3, "cmd": 0, "call": 1, "stop": 0},
 		ExprDepth: 2, Faults: 2, Ops: 26, HostWrites: 4, Numeric: true},
 	// every statement position may hold a faulty expression; out-of-domain arguments
 	"faults": {Name: "faults", MaxNodes: 3, Weights: baseWeights, ExprDepth: 2, Faults: 8, Ops: 30, Numeric: true, Random: true},
@@ -550,8 +550,10 @@ var Profiles = map[string]*Profile{
 	"visits": {Name: "visits", MaxNodes: 4, Weights: map[string]int{"line": 6, "opts": 3, "if": 2, "set": 1, "declare": 0, "jump": 7, "cmd": 0, "call": 0, "stop": 0},
 		ExprDepth: 1, Faults: 1, Ops: 40, Untracked: true, SnapOps: 2, Runners: 2, Visits: true},
 	// deep expressions of every type with probes
-	"expr": {Name: "expr", MaxNodes: 1, Weights: map[string]int{"line": 10, "opts": 0, "if": 2, "set": 3, "declare": 0, "jump": 0, "cmd": 0, "call": 3, "stop": 0},
-		ExprDepth: 5, Faults: 2, Ops: 14, Numeric: true, IllTyped: true},
+	// (statements are re-evaluated: nodes are re-entered by jumps and runners rewound by restores, so an evaluation that
+	// damages the parsed tree shows on the second evaluation)
+	"expr": {Name: "expr", MaxNodes: 2, Weights: map[string]int{"line": 10, "opts": 0, "if": 2, "set": 3, "declare": 0, "jump": 2, "cmd": 0, "call": 3, "stop": 0},
+		ExprDepth: 5, Faults: 2, Ops: 22, Numeric: true, IllTyped: true, SnapOps: 2, Runners: 1},
 	// line texts with escapes, multi-byte characters, tags, option conditions
 	"lines": {Name: "lines", MaxNodes: 2, Weights: map[string]int{"line": 10, "opts": 5, "if": 1, "set": 2, "declare": 0, "jump": 1, "cmd": 0, "call": 0, "stop": 0},
 		ExprDepth: 2, Faults: 0, Ops: 24, Multibyte: true, Escapes: true, Tags: true, Numeric: true, NumberForms: true},
